@@ -2,7 +2,7 @@
 import concurrent.futures, sys
 import vlib
 
-HARNESSES = ["h_rc", "h_pid", "h_mutex", "h_order", "h_utf8", "h_codec", "h_client", "h_sender", "h_replies", "h_guard", "h_stream", "h_frame"]
+HARNESSES = ["h_rc", "h_pid", "h_mutex", "h_order", "h_utf8", "h_codec", "h_client", "h_sender", "h_replies", "h_guard", "h_stream", "h_frame", "h_pubsend"]
 
 
 def main():
